@@ -800,6 +800,53 @@ def apply_field_reference(j, ref):
     return sorted(("%s::%s.%s" % k, v) for k, v in ren.items())
 
 
+def fold_literal_const_items(bodies_json):
+    """A named constant whose initialiser is one literal (`const MAX_BITS: i64 = 64;`, `const NAME: &str = "n";`) is read as that
+    literal wherever it is used: naming a magic number is not a change of behaviour.  Returns {const item: literal} for the
+    evidence.  Anything else (a computed constant, a table) stays a reference to the item and is folded by the rules that need it."""
+    lit = {}
+    for b in bodies_json:
+        if not str(b.get("kind", "")).startswith("Const") or len(b.get("blocks", [])) != 1:
+            continue
+        blk = b["blocks"][0]
+        if blk["term"].get("t") != "return" or len(blk["stmts"]) != 1:
+            continue
+        st = blk["stmts"][0]
+        if st.get("s") != "assign" or st["lhs"].get("l") != 0 or st["lhs"].get("p") or st["rv"].get("r") != "use":
+            continue
+        a = st["rv"]["a"]
+        if isinstance(a, dict) and a.get("k") == "const" and ("int" in a or "str" in a or _STR_LIT.match(a.get("v", "") or "")) and "uneval" not in a and "promoted" not in a:
+            lit[b["name"]] = a
+    if not lit:
+        return {}
+    used = {}
+
+    def walk(x):
+        if isinstance(x, dict):
+            if x.get("k") == "const" and "uneval" in x and "promoted" not in x and x["uneval"] in lit:
+                src = lit[x["uneval"]]
+                nm = x["uneval"]
+                for k_ in list(x.keys()):
+                    if k_ not in ("k",):
+                        del x[k_]
+                x.update({k_: v_ for k_, v_ in src.items()})
+                used[nm] = src.get("int", src.get("str", src.get("v")))
+                return
+            for v in x.values():
+                walk(v)
+        elif isinstance(x, list):
+            for v in x:
+                walk(v)
+    for b in bodies_json:
+        if b["name"] in lit:
+            continue
+        walk(b["blocks"])
+    return used
+
+
+_STR_LIT = re.compile(r'^const "')
+
+
 class Facts:
     def __init__(self, path, meta=None, inline=True):
         self._inline = inline
@@ -828,6 +875,7 @@ class Facts:
                 self.inlined_helpers = []
                 self.inline_error = repr(_e)
             self.closure_aliases = apply_closure_reference(self.j["bodies"], _ref.get("closures", {}))
+        self.literal_consts = fold_literal_const_items(self.j["bodies"])
         self.path = path
         self.meta = meta or {}
         self.config = self.j["config"]
